@@ -16,9 +16,19 @@ git apply -R $dst/patch.diff
 PYTHONPATH=$wt /venv/bin/python -W ignore _seeded/demo.py > /tmp/demo_without.txt 2>&1; without_rc=$?
 echo "tests: $tests | demo with patch rc=$with_rc | without rc=$without_rc"
 cd /verif
-git -C /repo apply $dst/patch.diff || { echo "patch does not apply to /repo"; exit 2; }
-out=$(./check $prop --tier quick 2>&1 | grep -v "^\[check\]" | grep "VIOLATION\|RESULT" | head -8)
-git -C /repo checkout -- .
+# checks run against a scratch worktree of /repo's HEAD with the patch applied (PYX12_REPO), so that /repo itself
+# stays untouched while other jobs read it; SEED_IN_REPO=1 applies to /repo instead (git apply / git checkout).
+if [ "${SEED_IN_REPO:-0}" = 1 ]; then
+  git -C /repo apply $dst/patch.diff || { echo "patch does not apply to /repo"; exit 2; }
+  out=$(./check $prop --tier quick 2>&1 | grep -v "^\[check\]" | grep "VIOLATION\|RESULT" | head -8)
+  git -C /repo checkout -- .
+else
+  hw=/tmp/wt_head_$$
+  git -C /repo worktree add -q --detach $hw HEAD || exit 2
+  git -C $hw apply $dst/patch.diff || { echo "patch does not apply to HEAD"; git -C /repo worktree remove --force $hw; exit 2; }
+  out=$(PYX12_REPO=$hw ./check $prop --tier quick 2>&1 | grep -v "^\[check\]" | grep "VIOLATION\|RESULT" | head -8)
+  git -C /repo worktree remove --force $hw
+fi
 echo "$out"
 python3 - "$dst" "$tests" "$with_rc" "$without_rc" "$prop" <<PY
 import json,sys
